@@ -102,7 +102,17 @@ type Inc struct {
 	Entries   []Entry
 }
 
+// Enq is one envelope entering a mailbox (observed at Enqueue entry).
+type Enq struct {
+	Seq    int
+	MB     any
+	Type   string
+	Detail string
+	System bool
+}
+
 type World struct {
+	Enqs             []Enq
 	Incs             map[string][]*Inc
 	providerPaths    map[string]bool
 	RestartedPending map[string]bool
@@ -187,6 +197,12 @@ func NewWorld(x *vexp.X, opts ...vivid.ActorSystemOption) *World {
 			x.Logf("handle %s <- %s(%s) sys=%v state=%d", c.Ref().GetPath(), t, d, env.System(), actor.VerifCtx(c).State)
 		}
 	})
+	vrt.Tap("mailbox.(*UnboundedMailbox).Enqueue", func(args ...any) {
+		env := args[1].(vivid.Envelop)
+		t, d := describe(env.Message())
+		w.seq++
+		w.Enqs = append(w.Enqs, Enq{Seq: w.seq, MB: args[0], Type: t, Detail: d, System: env.System()})
+	})
 	vrt.Tap("actor.(*eventStream).Publish", func(args ...any) {
 		ctx := args[1].(vivid.EventStreamContext)
 		ev := args[2]
@@ -233,6 +249,21 @@ func (w *World) Ref(path string) vivid.ActorRef {
 		panic(err)
 	}
 	return r
+}
+
+// EnqsOf returns the envelopes that entered the mailbox of the context registered at path.
+func (w *World) EnqsOf(c *actor.Context) []Enq {
+	var out []Enq
+	if c == nil {
+		return out
+	}
+	mb := any(c.Mailbox())
+	for _, e := range w.Enqs {
+		if e.MB == mb {
+			out = append(out, e)
+		}
+	}
+	return out
 }
 
 // EntriesOf returns what the behaviours of path saw, in order.
